@@ -34,6 +34,9 @@ def gen_case(run, i):
     pow2 = rng.random() < 0.75
     if pow2:
         a, c = 2.0 ** rng.randint(-3, 4), 2.0 ** rng.randint(-3, 4)
+        if i % 6 == 5:
+            # extreme (still exact) factors: data in units a million times smaller / larger
+            a, c = 2.0 ** rng.choice([-20, -18, 18, 20]), 2.0 ** rng.choice([-20, 17, 20])
         thresh = rng.choice([None, 0.25, 0.25, 0.6]) if model == 'gain-offset' else 0.25
     else:
         a, c = rng.choice([0.37, 113.0, 3.0, 0.01]), rng.choice([0.37, 113.0, 7.0, 0.05])
